@@ -59,6 +59,8 @@ type vc08Case struct {
 	Text []byte      `json:"text,omitempty"` // kind straw: an arbitrary status string
 	Type string      `json:"type,omitempty"` // kinds mp, js: record type
 	Tape []int       `json:"tape,omitempty"` // kinds mp, js: choices the value is built from
+	Pin2 *vc08PinIn  `json:"pin2,omitempty"` // kind eq: the pin compared with Pin
+	Same bool        `json:"same,omitempty"` // kind eq: compare the value with itself (same pointer)
 }
 
 // which universe a token's valid values come from
@@ -544,6 +546,182 @@ func vc08GenQRaw(r *vRand) vc08Case {
 	return c
 }
 
+// ---------------------------------------------------------------- Equals
+func vc08RunEq(out *vOut, c vc08Case) {
+	p := c.Pin.build()
+	q := p
+	if !c.Same {
+		if c.Pin2 == nil {
+			return
+		}
+		q = c.Pin2.build()
+	}
+	b := p.Equals(q)
+	bo := p.PinOptions.Equals(&q.PinOptions)
+	out.count(fmt.Sprintf("eq:%v", b))
+	out.add(fmt.Sprintf("CEquals %s %s %s %s %s", cqBool(c.Same), vc08PinTerm(p), vc08PinTerm(q), cqBool(b), cqBool(bo)), c, []bool{b, bo}, true)
+}
+
+func vc08ClonePin(p vc08PinIn) vc08PinIn {
+	b, _ := json.Marshal(p)
+	var q vc08PinIn
+	if err := json.Unmarshal(b, &q); err != nil {
+		panic(err)
+	}
+	return q
+}
+
+func vc08ShuffleInts(r *vRand, xs []int) {
+	for i := len(xs) - 1; i > 0; i-- {
+		j := r.intn(i + 1)
+		xs[i], xs[j] = xs[j], xs[i]
+	}
+}
+
+// one change to one field (or none, or only a reordering)
+func vc08MutatePin(r *vRand, p vc08PinIn) vc08PinIn {
+	q := vc08ClonePin(p)
+	o := &q.Opts
+	otherPeer := func(xs []int) int {
+		for try := 0; try < 20; try++ {
+			c := r.intn(len(vc08Peers))
+			dup := false
+			for _, x := range xs {
+				dup = dup || x == c
+			}
+			if !dup {
+				return c
+			}
+		}
+		return r.intn(len(vc08Peers))
+	}
+	switch r.intn(34) {
+	case 0, 1, 2, 3:
+		// identical
+	case 4:
+		vc08ShuffleInts(r, q.Allocs)
+	case 5:
+		vc08ShuffleInts(r, o.UA)
+	case 6:
+		vc08ShuffleInts(r, o.Orig)
+	case 7:
+		o.Name = append(append([]byte{}, o.Name...), 'x')
+	case 8:
+		o.Mode = 1 - o.Mode
+	case 9:
+		o.Rmin++
+	case 10:
+		o.Rmax--
+	case 11:
+		o.Shard++
+	case 12:
+		if len(o.UA) > 0 {
+			o.UA[r.intn(len(o.UA))] = otherPeer(o.UA)
+		} else {
+			o.UA = []int{r.intn(len(vc08Peers))}
+		}
+	case 13:
+		if len(o.UA) > 0 {
+			o.UA = o.UA[1:]
+		}
+	case 14:
+		if len(o.Exp) >= 2 {
+			o.Exp[1] = (o.Exp[1] + 1) % 1000000000
+		} else {
+			o.Exp = []int64{1700000000, 0}
+		}
+	case 15:
+		if len(o.Exp) >= 2 {
+			o.Exp = []int64{}
+		} else {
+			o.Exp = []int64{0, 0}
+		}
+	case 16: // remove one metadata key (the S4 regression)
+		if len(o.Meta) > 0 {
+			i := r.intn(len(o.Meta))
+			o.Meta = append(o.Meta[:i:i], o.Meta[i+1:]...)
+		}
+	case 17:
+		o.Meta = append(o.Meta, [][]byte{[]byte("added-key"), vc08GenStr(r, 0)})
+	case 18:
+		if len(o.Meta) > 0 {
+			i := r.intn(len(o.Meta))
+			o.Meta[i] = [][]byte{o.Meta[i][0], append(append([]byte{}, o.Meta[i][1]...), '!')}
+		}
+	case 19:
+		o.Meta = append(o.Meta, [][]byte{[]byte(""), []byte("value under the empty key")})
+	case 20: // a key mapped to "" versus the key absent
+		if len(o.Meta) > 0 {
+			i := r.intn(len(o.Meta))
+			o.Meta[i] = [][]byte{o.Meta[i][0], []byte("")}
+			p.Opts.Meta[i] = [][]byte{p.Opts.Meta[i][0], []byte("")}
+			o.Meta = append(o.Meta[:i:i], o.Meta[i+1:]...)
+		}
+	case 21:
+		o.Update = (o.Update+2)%(len(vc08Cids)+1) - 1 // ignored by Equals
+	case 22:
+		if len(o.Orig) > 0 {
+			o.Orig[r.intn(len(o.Orig))] = r.intn(len(vc08Addrs))
+		} else {
+			o.Orig = []int{r.intn(len(vc08Addrs))}
+		}
+	case 23:
+		if len(o.Orig) > 1 {
+			o.Orig[0] = o.Orig[1] // one origin listed twice
+		}
+	case 24:
+		if len(o.Orig) > 0 {
+			o.Orig = o.Orig[1:]
+		}
+	case 25:
+		q.Cid = (q.Cid + 1) % len(vc08Cids)
+	case 26:
+		q.Type = q.Type*2 + 1
+	case 27:
+		q.Depth++
+	case 28:
+		if len(q.Ref) > 0 {
+			q.Ref = []int{}
+		} else {
+			q.Ref = []int{r.intn(len(vc08Cids))}
+		}
+	case 29:
+		if len(q.Ref) > 0 {
+			q.Ref = []int{(q.Ref[0] + 1) % len(vc08Cids)}
+		}
+	case 30:
+		if len(q.Allocs) > 0 {
+			q.Allocs[r.intn(len(q.Allocs))] = otherPeer(q.Allocs)
+		} else {
+			q.Allocs = []int{r.intn(len(vc08Peers))}
+		}
+	case 31:
+		if len(q.Allocs) > 0 {
+			q.Allocs = q.Allocs[1:]
+		}
+	case 32:
+		if o.Meta == nil {
+			o.Meta = [][][]byte{}
+		} else if len(o.Meta) == 0 {
+			o.Meta = nil
+		}
+	default:
+		if len(q.Allocs) > 1 {
+			q.Allocs[0] = q.Allocs[1] // one peer twice, another dropped
+		}
+	}
+	return q
+}
+
+func vc08GenEq(r *vRand) vc08Case {
+	p := vc08GenPin(r, r.chance(10))
+	if r.chance(4) {
+		return vc08Case{Kind: "eq", Pin: &p, Same: true}
+	}
+	q := vc08MutatePin(r, p)
+	return vc08Case{Kind: "eq", Pin: &p, Pin2: &q}
+}
+
 // ---------------------------------------------------------------- names of statuses, types, modes
 func vc08RunNames(out *vOut, c vc08Case) {
 	switch c.Kind {
@@ -639,10 +817,12 @@ func vc08Gen(r *vRand) vc08Case {
 		return vc08Case{Kind: "q", Opts: &o}
 	case x < 55:
 		return vc08GenQRaw(r)
-	case x < 68:
+	case x < 66:
 		return vc08GenNames(r)
-	default:
+	case x < 88:
 		return vc08GenCodec(r)
+	default:
+		return vc08GenEq(r)
 	}
 }
 
@@ -667,6 +847,10 @@ func vc08Run(out *vOut, c vc08Case) {
 			vc08RunNames(out, c)
 		case "mp", "js":
 			vc08RunCodec(out, c)
+		case "eq":
+			if c.Pin != nil {
+				vc08RunEq(out, c)
+			}
 		}
 	})
 }
